@@ -11,6 +11,7 @@ import (
 	"encoding/hex"
 	"fmt"
 	"io"
+	stdlog "log"
 	"net"
 	"os"
 	"runtime"
@@ -50,6 +51,7 @@ func (vHook) Fire(e *logrus.Entry) error {
 func VQuietLog() {
 	vLogOnce.Do(func() {
 		logger.Log.SetOutput(io.Discard)
+		stdlog.SetOutput(io.Discard) // go-gtp5gnl prints unknown attributes with the standard logger
 		logger.Log.SetLevel(logrus.FatalLevel)
 		logger.Log.ExitFunc = func(int) { vFatal.Add(1) }
 		logger.Log.AddHook(vHook{})
@@ -317,6 +319,7 @@ func h8(b []byte) string {
 
 // SessDump is the canonical dump of one session (all fields a property can observe).
 func sessDump(s *Sess, lab func(uint64) string, noSeq ...bool) string {
+	qLenOnly := len(noSeq) > 1 && noSeq[1]
 	var sb strings.Builder
 	node := "?"
 	if s.rnode != nil {
@@ -380,7 +383,7 @@ func sessDump(s *Sess, lab func(uint64) string, noSeq ...bool) string {
 		n := len(q)
 		fmt.Fprintf(&sb, "%d:%d(", id, n)
 		// peek: rotate the FIFO once (the loop is parked, nobody else touches it)
-		for i := 0; i < n; i++ {
+		for i := 0; i < n && !qLenOnly; i++ {
 			p := <-q
 			sb.WriteString(h8(p))
 			sb.WriteString(",")
@@ -439,6 +442,7 @@ type DumpOpt struct {
 	// is reset) are the same state up to renaming of SEIDs, and no oracle depends on the value.
 	Label func(uint64) string
 	NoSeq bool // leave out the per-URR UR-SEQN counters (properties that cannot observe them)
+	QLenOnly bool // queues by length only (payload names are a renaming)
 }
 
 func rawLabel(x uint64) string { return fmt.Sprintf("%#x", x) }
@@ -470,7 +474,7 @@ func (v *VServer) Dump(o DumpOpt) string {
 			if x == nil {
 				fmt.Fprintf(&sb, "slot %d nil\n", i+1)
 			} else {
-				fmt.Fprintf(&sb, "slot %d %s\n", i+1, sessDump(x, lab, o.NoSeq))
+				fmt.Fprintf(&sb, "slot %d %s\n", i+1, sessDump(x, lab, o.NoSeq, o.QLenOnly))
 			}
 		}
 	} else {
@@ -486,7 +490,7 @@ func (v *VServer) Dump(o DumpOpt) string {
 		var ds []string
 		for i, x := range s.lnode.sess {
 			if x != nil {
-				d := sessDump(x, lab, o.NoSeq)
+				d := sessDump(x, lab, o.NoSeq, o.QLenOnly)
 				if x.LocalID != uint64(i+1) {
 					d += fmt.Sprintf(" MISPLACED(slot %d holds LocalID %#x)", i+1, x.LocalID)
 				}
